@@ -45,12 +45,61 @@ Proof.
           | eapply trunc_flow_wf; [|exact H]; apply Forall_slice, Hb ].
 Qed.
 
+(* ---------------------------------------------------------------- whole packets *)
+Lemma transport_of_wf proto payload f : bytes_ok payload -> transport_of proto payload = Ok (Some f) -> wf_f f.
+Proof.
+  intros Hb. unfold transport_of. destruct (Nat.eqb (length payload) 0); [discriminate|].
+  destruct (proto =? 6); [|destruct (proto =? 17); [|destruct (proto =? 132); [|discriminate]]];
+    match goal with |- context [layer_flow ?k payload] => destruct (layer_flow k payload) eqn:E end;
+    try discriminate; intros H; inversion H; subst; eapply layer_flow_wf; eassumption.
+Qed.
+
+Lemma ip4_next_wf d f : bytes_ok d -> ip4_next d = Ok (Some f) -> wf_f f.
+Proof.
+  intros Hb. unfold ip4_next. cbv zeta. destruct (_ || _)%bool; [discriminate|].
+  apply transport_of_wf. apply Forall_skipn. destruct (_ <? _); [apply Forall_firstn|]; assumption.
+Qed.
+
+Lemma ip6_next_wf d f : bytes_ok d -> ip6_next d = Ok (Some f) -> wf_f f.
+Proof.
+  intros Hb. unfold ip6_next. cbv zeta. destruct (_ =? 0); [discriminate|].
+  apply transport_of_wf. apply Forall_firstn, Forall_skipn, Hb.
+Qed.
+
+Definition opt_wf (o : option flow) : Prop := match o with Some f => wf_f f | None => True end.
+
+Lemma stack_flows_wf data st : bytes_ok data -> stack_flows data = Ok st ->
+  opt_wf (st_link st) /\ opt_wf (st_net st) /\ opt_wf (st_tr st).
+Proof.
+  intros Hb. unfold stack_flows.
+  assert (Hp : bytes_ok (skipn 14 data)) by (apply Forall_skipn, Hb).
+  destruct (layer_flow LEthernet data) as [lf| |] eqn:EL; try discriminate.
+  2:{ intros H; inversion H; subst; cbn; auto. }
+  pose proof (layer_flow_wf _ _ _ Hb EL) as Wl.
+  destruct (Nat.eqb (length (skipn 14 data)) 0); [intros H; inversion H; subst; cbn; auto|].
+  destruct (be16 data 12 =? 2048).
+  - destruct (layer_flow LIPv4 (skipn 14 data)) as [nf| |] eqn:EN; try discriminate.
+    pose proof (layer_flow_wf _ _ _ Hp EN) as Wn.
+    destruct (ip4_decode (skipn 14 data)); try solve [intros H; inversion H; subst; cbn; auto].
+    destruct (ip4_next (skipn 14 data)) as [[t|]| |] eqn:ET; try discriminate;
+      intros H; inversion H; subst; cbn; (split; [exact Wl|split; [exact Wn|]]); try exact I.
+    exact (ip4_next_wf _ _ Hp ET).
+  - destruct (be16 data 12 =? 34525); [|discriminate].
+    destruct (layer_flow LIPv6 (skipn 14 data)) as [nf| |] eqn:EN; try discriminate.
+    pose proof (layer_flow_wf _ _ _ Hp EN) as Wn.
+    destruct (length (skipn 14 data) <? 40)%nat; [intros H; inversion H; subst; cbn; auto|].
+    destruct (ip6_next (skipn 14 data)) as [[t|]| |] eqn:ET; try discriminate;
+      intros H; inversion H; subst; cbn; (split; [exact Wl|split; [exact Wn|]]); try exact I.
+    exact (ip6_next_wf _ _ Hp ET).
+Qed.
+
 (* ---------------------------------------------------------------- reachability *)
 Definition op_ok (o : op) : Prop :=
   match o with
   | ONewE t raw => int64_ok t /\ bytes_ok raw
   | ONewF t s d => int64_ok t /\ bytes_ok s /\ bytes_ok d
   | OLayer _ data => bytes_ok data
+  | OPacket data => bytes_ok data
   | _ => True
   end.
 
@@ -110,6 +159,11 @@ Proof.
   - destruct (nth_error (s_eps s) i); [|assumption]. destruct (nth_error (s_eps s) j); assumption.
   - destruct (nth_error (s_fls s) k); [|assumption]. destruct (nth_error (s_fls s) l); assumption.
   - apply obs_of_flow_wf; [assumption|]. intros f E. eapply layer_flow_wf; eassumption.
+  - destruct (stack_flows data) as [st| |] eqn:E; try assumption.
+    destruct (stack_flows_wf _ _ Hok E) as (W1 & W2 & W3).
+    split; cbn; [assumption|]. repeat (apply Forall_app; split); try assumption.
+    all: match goal with |- Forall _ (match ?o with _ => _ end) => destruct o end;
+      cbn in *; try apply Forall_nil; (apply Forall_cons; [assumption|apply Forall_nil]).
 Qed.
 
 Lemma run_from_wf ops : forall s, st_wf s -> Forall op_ok ops ->
